@@ -88,68 +88,63 @@ func VerifC17Mcrew() {
 	// wait until the short timers (and the handler) are done, but not the long ones
 	time.Sleep(200 * time.Millisecond)
 
-	// ---- at most once per accepted timer, never early ----
-	count := map[string]int{}
-	for _, f := range fired {
-		count[f.id]++
+	// ---- every firing belongs to its own live timer instance that was due ----
+	// instances: one per accepted Add (requester and handler), with the time it was cancelled (if it was)
+	type inst struct {
+		id        string
+		due       time.Time
+		cancelled bool
+		cancelAt  time.Time
+		fired     bool
 	}
-	accepted := map[string]int{}
+	var insts []*inst
+	live := map[string]*inst{}
 	for _, r := range reqs {
 		if r.add && r.err == nil {
-			accepted[r.id]++
+			t := &inst{id: r.id, due: r.due}
+			insts = append(insts, t)
+			live[r.id] = t
+		} else if !r.add && r.err == nil {
+			if t := live[r.id]; t != nil && !t.cancelled {
+				t.cancelled, t.cancelAt = true, r.at
+			}
 		}
 	}
-	if handlerDone && handlerAddErr == nil && handlerMode != 0 {
+	if handlerDone && handlerMode != 0 {
+		hid := "t1"
 		if handlerMode == 3 {
-			accepted["t2"]++
-		} else {
-			accepted["t1"]++
+			hid = "t2"
+		}
+		if handlerMode == 2 && handlerRemErr == nil {
+			if t := live["t1"]; t != nil && !t.cancelled {
+				t.cancelled, t.cancelAt = true, handlerDue.Add(-c17Long)
+			}
+		}
+		if handlerAddErr == nil {
+			insts = append(insts, &inst{id: hid, due: handlerDue})
 		}
 	}
-	for _, id := range c17ids {
-		verif.Assert("fires-at-most-once-per-accepted-timer", count[id] <= accepted[id])
+	count := map[string]int{}
+	accepted := map[string]int{}
+	for _, t := range insts {
+		accepted[t.id]++
 	}
 	for _, f := range fired {
-		// never before the earliest due time of an accepted timer of that id
-		early := true
-		for _, r := range reqs {
-			if r.add && r.err == nil && r.id == f.id && !f.at.Before(r.due) {
-				early = false
+		count[f.id]++
+		// the firing must be matched by an instance of that id that was due, had not been cancelled before
+		// the firing, and has not fired yet
+		matched := false
+		for _, t := range insts {
+			if t.id != f.id || t.fired || f.at.Before(t.due) {
+				continue
 			}
+			if t.cancelled && !t.cancelAt.After(f.at) {
+				continue // cancelled at or before the moment of firing: must never fire
+			}
+			t.fired, matched = true, true
+			break
 		}
-		if handlerDone && handlerMode != 0 && handlerAddErr == nil && !f.at.Before(handlerDue) {
-			hid := "t1"
-			if handlerMode == 3 {
-				hid = "t2"
-			}
-			if f.id == hid {
-				early = false
-			}
-		}
-		verif.Assert("never-fires-early", !early)
-	}
-	// ---- cancelled before firing => never fires: a successful Rem by the requester ----
-	for i, r := range reqs {
-		if !r.add && r.err == nil {
-			// the timer this Rem cancelled: the last accepted Add of that id before it
-			for j := i - 1; j >= 0; j-- {
-				if reqs[j].add && reqs[j].err == nil && reqs[j].id == r.id {
-					for _, f := range fired {
-						if f.id == r.id && !f.at.Before(reqs[j].due) && f.at.After(r.at) {
-							// fired after the cancel returned: only legitimate if a later Add re-created it
-							later := false
-							for k := i + 1; k < len(reqs); k++ {
-								if reqs[k].add && reqs[k].err == nil && reqs[k].id == r.id {
-									later = true
-								}
-							}
-							verif.Assert("cancelled-timer-never-fires", later || (handlerDone && handlerAddErr == nil))
-						}
-					}
-					break
-				}
-			}
-		}
+		verif.Assert("each-firing-is-a-live-due-timer-firing-once", matched)
 	}
 	// ---- the id is free from the moment the timer fires, also for the handler ----
 	if handlerDone && (handlerMode == 1) {
